@@ -94,10 +94,13 @@ impl ExprId { /// the zero constant is always the first expression in the graph
     pub const ZERO: ExprId = ExprId(0); }
 
 pub struct ExprBuilderStub<F> { pub _p: core::marker::PhantomData<F> }
-pub struct SelectSourcesStub { pub _p: () }
+/// HashMap<ExprId, (b, t, s)> of recorded selects, by its key set (the records themselves are not modelled)
+pub struct SelectSourcesStub { pub keys: Ghost<Set<ExprId>> }
 impl SelectSourcesStub {
     #[verifier::external_body]
-    pub fn insert(&mut self, k: ExprId, v: (ExprId, ExprId, ExprId)) {}
+    pub fn insert(&mut self, k: ExprId, v: (ExprId, ExprId, ExprId)) ensures final(self).keys@ == old(self).keys@.insert(k) {}
+    #[verifier::external_body]
+    pub fn remove(&mut self, k: &ExprId) -> (r: Option<(ExprId, ExprId, ExprId)>) ensures final(self).keys@ == old(self).keys@.remove(*k) { unimplemented!() }
 }
 
 pub struct CircuitBuilder<F> {
